@@ -38,6 +38,8 @@ type pipe struct {
 	dead    bool
 	wire    [2][][]byte             // wire[d]: messages sent by side d, marshalled as gRPC would
 	waiting [2]bool                 // side d's receiver loop is blocked in Recv
+	paused  [2]bool                 // side d's receiver loop does not take the next message (reorder suite)
+	running [2]bool                 // side d's receiver loop has not returned yet
 }
 
 type endpoint struct {
@@ -65,7 +67,7 @@ func (e *endpoint) Recv() (*prc.SharedMessage, error) {
 	p, from := e.p, 1-e.side
 	p.mu.Lock()
 	defer p.mu.Unlock()
-	for len(p.wire[from]) == 0 && !p.dead {
+	for (len(p.wire[from]) == 0 && !p.dead) || p.paused[e.side] {
 		p.waiting[e.side] = true
 		p.cond.Wait()
 	}
@@ -320,10 +322,16 @@ func (l *Link) open(from int) prc.Process {
 		n.streams = append(n.streams, sps[side])
 	}
 	for side := 0; side < 2; side++ {
-		n, sp := l.nodes[side], sps[side]
+		n, sp, side := l.nodes[side], sps[side], side
 		l.loops.Add(1)
+		p.mu.Lock()
+		p.running[side] = true
+		p.mu.Unlock()
 		go func() {
 			_ = n.shared.VerifStreaming(sp)
+			p.mu.Lock()
+			p.running[side] = false
+			p.mu.Unlock()
 			linkEvents.Add(1)
 			l.loops.Add(-1)
 		}()
@@ -352,20 +360,25 @@ func (l *Link) snapshotQuiet() bool {
 	l.mu.Lock()
 	pipes := append([]*pipe(nil), l.pipes...)
 	l.mu.Unlock()
-	live := int64(0)
 	for _, p := range pipes {
 		p.mu.Lock()
-		dead, w0, w1, q0, q1 := p.dead, p.waiting[0], p.waiting[1], len(p.wire[0]), len(p.wire[1])
-		p.mu.Unlock()
-		if dead {
-			continue
+		ok := true
+		for side := 0; side < 2; side++ {
+			if !p.running[side] {
+				continue
+			}
+			pending := len(p.wire[1-side]) != 0 || p.dead
+			// a running loop must be blocked in Recv, with nothing to take unless it is paused
+			if !p.waiting[side] || (pending && !p.paused[side]) {
+				ok = false
+			}
 		}
-		if !w0 || !w1 || q0 != 0 || q1 != 0 {
+		p.mu.Unlock()
+		if !ok {
 			return false
 		}
-		live += 2
 	}
-	return l.loops.Load() == live
+	return true
 }
 
 // quiesce waits until nothing moves any more (event-driven with a hard cap).
@@ -565,6 +578,7 @@ func (l *Link) breakLink() string {
 		if !p.dead {
 			p.dead = true
 			p.wire[0], p.wire[1] = nil, nil
+			p.paused = [2]bool{}
 			p.cond.Broadcast()
 		}
 		p.mu.Unlock()
